@@ -211,7 +211,7 @@ def rule_R4(ctx, f):
                     src = peel(src, transparent=[])[2][0]
                 if not is_call(peel(src, transparent=[]), "HashMap::get"):
                     continue
-                propagated = (bd is b and try_continue_block(b, c) is not None) or (bd is not b and peel(bd.term_local(0), transparent=[]) == c.result_term())
+                propagated = try_continue_block(bd, c) is not None or (bd is not b and peel(bd.term_local(0), transparent=[]) == c.result_term())
                 n += 1
                 ctx.ob(rid, m + "|missing-name-rejects", propagated, "a missing label name must lead to Err (the Err of ok_or_else must be propagated)", site=c.span)
         ctx.floor(rid, "missing-name tests in " + m, n, 1)
